@@ -25,12 +25,17 @@ From Coq Require Import ZArith List Bool FunctionalExtensionality.
 From Lib Require Import ZOps Machine.
 From Snapshot Require GenFields %s.
 From Gen Require GenFields %s.
-From Props Require Import CpuEqLib.
+From Props Require Import CpuEqLib SeqCong.
 Local Open Scope Z_scope.
-(* closing step of every lemma: conversion; when the regenerated routine was restructured (say, a helper extracted as a
-   statement), pointwise case analysis down to the Machine primitives (functional extensionality), under a time limit *)
+(* closing step of every lemma: conversion; when the regenerated routine was restructured (a helper extracted, an `if`
+   moved into an expression, another spelling of the return), structured congruence (Props/SeqCong.v: in parallel through
+   both terms, local continuations proved equal once, case split on conditions only one side tests); last, pointwise
+   case analysis down to the Machine primitives.  The last two use functional extensionality; all under a time limit *)
 Ltac seq_close helpers :=
   first [ timeout 60 reflexivity
+        | timeout 300 (repeat (apply functional_extensionality; intro);
+                       cbv delta [%(fields)s];
+                       sc ltac:(helpers; cbv delta [%(fields)s]))
         | timeout 120 (repeat (apply functional_extensionality; intro); helpers;
                        cbv delta [%s];
                        unfold bind; cbv beta iota zeta delta [get log upd regs mem trace onpc onwdm];
@@ -38,7 +43,7 @@ Ltac seq_close helpers :=
                                      | match goal with |- context [match ?r with Ok _ _ => _ | Panic => _ end] => destruct r eqn:? end ];
                                cbv beta iota zeta);
                        try reflexivity; try congruence) ].
-""" % (mod, mod, mod, fields)]
+""".replace("%(fields)s", fields) % (mod, mod, mod, fields)]
     lemmas, skipped = [], []
     new_helpers = [n for n in og if n not in bs]
     helpers = ("repeat (progress unfold " + ", ".join("%s.%s" % (G, n) for n in new_helpers) + ")") if new_helpers else "idtac"
